@@ -113,14 +113,31 @@ Theorem C02_result_refuted_open_reference :
 Proof. exact result_refuted_open_reference. Qed.
 Print Assumptions C02_result_refuted_open_reference.
 
-(* ... what remains true of the result side: for constraints whose token-level enforcement is complete (Any, None,
-   unbounded Int/Number, ByteString without maxLength/minLength, unbounded ListOf/SetOf of those) the value given to
-   the callback satisfies the result constraint, for EVERY well-formed wire tree w (forged references included).
-   Missing w.r.t. the full statement: every bounded constraint, tuples, dicts, text, bool, ChoiceOf (see refuted). *)
+(* ... what remains true of the result side: for constraints whose token-level enforcement is complete -- Any, None,
+   Optional, RemoteInterfaceConstraint(None), unbounded Int/Number, ByteString without maxLength/minLength, and ListOf /
+   SetOf(mutable=None) / DictOf of those with ANY maxLength / maxKeys >= 0 and no minLength (the unslicers' "the list /
+   set / dict is full" tests ARE the size check) -- the value given to the callback satisfies the result constraint, for
+   EVERY well-formed wire tree w (forged references included).
+   Missing w.r.t. the full statement, each FALSE on the current tree (D6): Int/Number(maxBytes) (an INT token carries any
+   value: refuted witness 3), ByteString(maxLength) (a VOCAB token is not measured), minLength, tuples (arity, witness 1),
+   text (witness 2), bool (witness 4), SetOf(mutable=..) (both opentypes pass), ChoiceOf (an OPEN `none` passes any
+   alternative that accepts OPEN); negative maxLength (the empty list is delivered). *)
 Theorem C02_result_partial : forall c w v,
   complete c = true -> wwf w = true -> recv_answer (Some c) w = Callback v -> checkObject c v = true.
 Proof. exact C02_result_partial_main. Qed.
 Print Assumptions C02_result_partial.
+
+Theorem C02_result_refuted_more :
+  recv_answer (Some (CBytes (Some 3) 0)) (WStr true 21 [99; 108; 97; 115; 115]) = Callback (OBytes [99; 108; 97; 115; 115]) /\
+  checkObject (CBytes (Some 3) 0) (OBytes [99; 108; 97; 115; 115]) = false /\
+  recv_answer (Some (CInt (Some 4))) (WInt 129 (2 ^ 40) (2 ^ 40)) = Callback (OInt (2 ^ 40)) /\ checkObject (CInt (Some 4)) (OInt (2 ^ 40)) = false /\
+  recv_answer (Some (CChoice [CList CAny None 0])) (WOpen OtNone []) = Callback ONone /\ checkObject (CChoice [CList CAny None 0]) ONone = false /\
+  recv_answer (Some (CSet (CInt None) None (Some true))) (WOpen OtFset []) = Callback (OFset []) /\
+  checkObject (CSet (CInt None) None (Some true)) (OFset []) = false /\
+  recv_answer (Some (CList (CInt None) (Some (-1)) 0)) (WOpen OtList []) = Callback (OList []) /\
+  recv_answer (Some (CList (CInt None) None 1)) (WOpen OtList []) = Callback (OList []).
+Proof. exact result_refuted_more. Qed.
+Print Assumptions C02_result_refuted_more.
 
 (* "a non-conforming message makes that one call fail with a Violation", POSITIVELY, where it holds: for method schemas
    whose arguments are declared with the token-level constraints that are not strictTaster (Int / Number / ByteString, any
@@ -171,3 +188,59 @@ Theorem C02_unknown_flags_refuted :
   recv_arguments (ms3 true true) [WInt 129 1 1; i5] = CInvoke [OInt 5] [].
 Proof. exact unknown_flags_refuted. Qed.
 Print Assumptions C02_unknown_flags_refuted.
+
+(* ---- RemoteCopy objects whose class declares a stateSchema (AttributeDictConstraint): "declared schemas are enforced on
+   all data crossing into user code" for the state handed to setCopyableState.  items: ARBITRARY children of the copyable
+   sequence (names and values in turn).  What holds: every collected value was received under the constraint declared
+   for its name, so it satisfies it when that constraint's token-level enforcement is complete; an undeclared name is
+   collected only under acceptUnknown. *)
+Theorem C02_remotecopy_values_partial : forall s items d', forallb wwf items = true -> rc_run (Some s) [] items = ADeliver d' ->
+  forall n v a, In (n, v) d' -> lookup n (as_keys s) = Some a -> complete (a_ctr a) = true -> checkObject (a_ctr a) v = true.
+Proof. exact rc_values_partial. Qed.
+Print Assumptions C02_remotecopy_values_partial.
+
+Theorem C02_remotecopy_names_declared : forall s items d', forallb wwf items = true -> rc_run (Some s) [] items = ADeliver d' ->
+  forall n v, In (n, v) d' -> lookup n (as_keys s) <> None \/ as_accept s = true.
+Proof. exact rc_names_declared. Qed.
+Print Assumptions C02_remotecopy_names_declared.
+
+(* ... the full statement is FALSE on the current tree: receiveClose does not apply the stateSchema to the collected state
+   (required attributes missing, a 1-tuple for TupleOf(int, int): finding oracle/remotecopy-state-unchecked); an unknown
+   name under ignoreUnknown trips `assert accept`: connection lost (finding oracle/attrdict-ignore-unknown-drops-connection).
+   A name that is not UTF-8 fails the call with a Violation (line 6) since commit bc46263 -- the repaired defect
+   oracle/non-utf8-attribute-name-drops-connection; without the handler the generated rc_nontext_name_violation is false,
+   this theorem no longer builds and the model says "connection lost" *)
+Theorem C02_remotecopy_state_refuted :
+  rc_run (Some (asP false false)) [] [] = ADeliver [] /\ attr_state_ok (asP false false) [] = false /\
+  rc_run (Some (asP false false)) [] [kname 97; i5; kname 98; WOpen OtTuple [i5]] = ADeliver [(nA, OInt 5); (nB, OTuple [OInt 5])] /\
+  attr_state_ok (asP false false) [(nA, OInt 5); (nB, OTuple [OInt 5])] = false /\
+  rc_run (Some (asP true false)) [] [kname 97; i5; kname 122; i5] = AAbort /\
+  rc_run (Some (asP false false)) [] [WStr false 2 [168; 97]; i5] = AViol /\
+  rc_run (Some (asP false false)) [] [kname 97; i5; kname 122; i5] = AViol /\
+  rc_run (Some (asP false true)) [] [kname 97; i5; kname 122; WOpen OtList [i5]] = ADeliver [(nA, OInt 5); (nZ, OList [OInt 5])] /\
+  rc_run (Some (asP false false)) [] [kname 99; WOpen OtList [i5; i5; i5]] = AViol.
+Proof. exact rc_state_refuted. Qed.
+Print Assumptions C02_remotecopy_state_refuted.
+
+(* ---- the whole `call` sequence (CallUnslicer composed with ArgumentUnslicer): kids are ARBITRARY children of OPEN call --
+   any tokens / sequences in any number and order, an `arguments` sequence with arbitrary children wherever the peer puts
+   it; env is what the Broker knows (objects by connection-local id with their RemoteInterface's method table, bound
+   methods under negative ids with their .methodSchema, requireSchema, request ids still being answered).  If the method
+   body runs, it is the method the Broker's tables DESIGNATE for the addressed object and name, and the arguments passed
+   that method's checkAllArgs.  (Which type bytes a stage accepts and when the sequence may close are tables obtained by
+   executing CallUnslicer.checkToken / receiveClose; the stage bodies are tied by fragments + the correspondence.) *)
+Theorem C02_call_sequence_checked : forall env kids clid meth ms a kw,
+  recv_call_stream env kids = QInvoke clid meth ms a kw -> designated env clid meth ms /\ checkAllArgs ms a kw = Ok tt.
+Proof. exact call_stream_checked. Qed.
+Print Assumptions C02_call_sequence_checked.
+
+(* C02_one_call_violation for complete call sequences addressed to a method of non-strict token constraints *)
+Theorem C02_call_sequence_one_violation : forall env r c mname pos kwsb t tbl ms,
+  (negb (r =? 0) && memZ r (be_active env)) = false -> 0 <= c -> utf8_valid mname = true ->
+  assocZ c (be_objs env) = Some t -> t_iface t = Some tbl -> assocZ (name_code mname) tbl = Some ms ->
+  leaf_schema ms -> names_text kwsb = true ->
+  recv_call_stream env (call_kids r c mname (enc_args pos kwsb)) = QViol \/
+  exists a kw, recv_call_stream env (call_kids r c mname (enc_args pos kwsb)) = QInvoke c (Some (name_code mname)) ms a kw /\
+               checkAllArgs ms a kw = Ok tt.
+Proof. exact call_one_violation. Qed.
+Print Assumptions C02_call_sequence_one_violation.
